@@ -473,7 +473,13 @@ class Set(ProxyValue):
 
     def get_hash(self, data: Optional[bytes] = None) -> str:
         # Sort the set to ensure stable serialization and hashing.
-        bytes = pickle_dumps(sorted(self.instance))
+        try:
+            items = sorted(self.instance)
+        except builtins.TypeError:
+            # The elements are not mutually orderable (mixed types, lazy expressions), so order
+            # them by their hashes instead.
+            items = sorted(self.instance, key=get_type_registry().get_hash)
+        bytes = pickle_dumps(items)
 
         # Use a unique tag to distinguish from hashing a list.
         return hash_tag_bytes("Value.set", bytes)
